@@ -8,12 +8,13 @@
 EXTENDS Rat, Sequences, TLC
 CONSTANTS IntParts, Fracs, Exps, Refs
 Units == {"", "px", "in", "mm", "cm", "pt", "pc", "Q", "%"}
-Unsupported == {"em", "ex", "rem", "vw", "m"}
+\* unsupported units, among them ones spelt with the letters of a supported suffix (a suffix is removed once, not as a set of characters)
+Unsupported == {"em", "ex", "rem", "vw", "m", "mmm", "nin", "xpx", "mcm", "tpt", "cpc", "QQ", "%%", "pxpx"}
 \* malformed texts (no numeric part / not a numeral); the harness holds the literal strings under these names
 Malformed == {"empty", "blank", "bare_unit_mm", "bare_px", "bare_percent", "word", "two_dots", "double_sign", "dangling_exponent",
               "exponent_only", "lone_dot", "lone_sign", "two_numbers", "decimal_comma", "nan", "inf", "neg_infinity", "nan_mm", "inf_px"}
 
-Pow10(k) == IF k = 0 THEN 1 ELSE IF k = 1 THEN 10 ELSE IF k = 2 THEN 100 ELSE IF k = 3 THEN 1000 ELSE 10000
+Pow10(k) == 10 ^ k
 Value(neg, ip, fr, ex) ==
   LET m == RAdd(RI(ip), R(fr[1], fr[2]))
       s == IF ex >= 0 THEN RMul(m, RI(Pow10(ex))) ELSE RDiv(m, RI(Pow10(0 - ex))) IN
@@ -47,6 +48,9 @@ vars == <<num, unit, ref, kind, exp>>
 Init ==
   /\ \/ /\ kind = "ok"
         /\ num \in {<<neg, ip, fr, ex>> : neg \in BOOLEAN, ip \in IntParts, fr \in Fracs, ex \in Exps}
+        /\ unit \in Units /\ ref \in Refs
+     \/ /\ kind = "ok"           \* very small values (1e-7, 3e-7): a conversion that keeps six decimals loses them
+        /\ num \in {<<neg, ip, <<0, 1>>, -7>> : neg \in BOOLEAN, ip \in {1, 3}}
         /\ unit \in Units /\ ref \in Refs
      \/ /\ kind = "unsupported_unit"
         /\ num \in {<<FALSE, ip, <<0, 1>>, 0>> : ip \in IntParts}
